@@ -96,6 +96,10 @@ def check_config(acc: Acc, cfg):
                                                         dsp2=inf["dsp2"], ac_output_type=inf["ac_output_type"], modbus_version=inf["modbus_version"]))
         else:
             sim.set_bytes(0x7531, siminv.dt_device_info(serial=cfg["serial"], arm=inf["arm"], dsp1=inf["dsp1"], dsp2=inf["dsp2"]))
+    if cfg.get("mbap") is not None and cfg.get("tcp") and not cfg.get("transient"):
+        quirky = siminv.responder_for(inv, sim)
+        quirky.mbap_len = cfg["mbap"]       # inconsistent MBAP length field (documented firmware quirk): answers are still full-length
+        siminv.attach_direct(inv, quirky)
     fault = None
     if cfg.get("transient"):
         k, kind = cfg["transient"]
@@ -117,7 +121,7 @@ def check_config(acc: Acc, cfg):
         acc.fail("C14|%s|exception|%s" % (cfg["family"], type(ex).__name__), repr(ex), cfg)
         return
     if nondefault:
-        acc.nontrivial(cfg["family"], cfg["serial"], cfg.get("rated_power"), cfg.get("battery_mode"), tuple(cfg.get("refuse", ())), cfg.get("tcp"), repr(cfg.get("transient")), repr(cfg.get("info")))
+        acc.nontrivial(cfg["family"], cfg["serial"], cfg.get("rated_power"), cfg.get("battery_mode"), tuple(cfg.get("refuse", ())), cfg.get("tcp"), repr(cfg.get("transient")), repr(cfg.get("info")), cfg.get("mbap"))
     acc.cls("reads", log.reads)
     seen = set()
     for sid, first, count, pos, req, got in log.short:
@@ -130,6 +134,7 @@ def check_config(acc: Acc, cfg):
 
 
 def configs(family):
+    n = 0
     if family == "ET":
         serials = siminv.et_serials()
         opt = ("battery", "battery2", "meter_ext2", "meter_ext", "mppt")
@@ -139,14 +144,16 @@ def configs(family):
                     for r in range(len(opt) + 1):
                         for refuse in itertools.combinations(opt, r):
                             for tcp in (False, True):
+                                n += 1
                                 yield {"family": "ET", "serial": serial, "rated_power": power, "battery_mode": bm,
-                                       "refuse": list(refuse), "tcp": tcp}
+                                       "refuse": list(refuse), "tcp": tcp, "mbap": (None, 6, 0, 3, None, 0xFFFF, 2, 8)[(n // 2) % 8]}
     else:
         for serial in siminv.dt_serials():
             for r in range(len(siminv.DT_OPTIONAL) + 1):
                 for refuse in itertools.combinations(siminv.DT_OPTIONAL, r):
                     for tcp in (False, True):
-                        yield {"family": "DT", "serial": serial, "refuse": list(refuse), "tcp": tcp}
+                        n += 1
+                        yield {"family": "DT", "serial": serial, "refuse": list(refuse), "tcp": tcp, "mbap": (None, 6, 0, 3)[(n // 2) % 4]}
 
 
 def transient_configs():
